@@ -145,17 +145,19 @@ structure Frame (s s' : S) : Prop where
   events : s'.events = s.events
   len : s'.actors.length = s.actors.length
   actors : ∀ (b : Nat) (y' : Actor), s'.actors[b]? = some y' →
-      ∃ y, s.actors[b]? = some y ∧ y'.handled = y.handled ∧ y'.failedStart = y.failedStart ∧
+      ∃ y, s.actors[b]? = some y ∧ y'.handled = y.handled ∧
+        (y.phase ≠ .starting → y'.failedStart = y.failedStart) ∧
         (∀ ce ∈ y'.pending, ce ∈ y.pending) ∧ (y'.phase = .starting → y.phase = .starting)
 
-theorem Frame.refl (s : S) : Frame s s := ⟨rfl, rfl, fun b y h => ⟨y, h, rfl, rfl, fun _ h => h, fun h => h⟩⟩
+theorem Frame.refl (s : S) : Frame s s := ⟨rfl, rfl, fun b y h => ⟨y, h, rfl, fun _ => rfl, fun _ h => h, fun h => h⟩⟩
 
 theorem Frame.trans {s s' s'' : S} (h1 : Frame s s') (h2 : Frame s' s'') : Frame s s'' := by
   refine ⟨h2.events.trans h1.events, h2.len.trans h1.len, ?_⟩
   intro b y'' hy''
   obtain ⟨y', hy', a1, a2, a3, a4⟩ := h2.actors b y'' hy''
   obtain ⟨y, hy, b1, b2, b3, b4⟩ := h1.actors b y' hy'
-  exact ⟨y, hy, a1.trans b1, a2.trans b2, fun ce hce => b3 ce (a3 ce hce), fun h => b4 (a4 h)⟩
+  exact ⟨y, hy, a1.trans b1, fun hns => (a2 (fun h => hns (b4 h))).trans (b2 hns),
+    fun ce hce => b3 ce (a3 ce hce), fun h => b4 (a4 h)⟩
 
 theorem frame_release (s : S) (c : Nat) : Frame s (release s c) := by
   unfold release
@@ -172,22 +174,6 @@ theorem frame_release (s : S) (c : Nat) : Frame s (release s c) := by
     | some y =>
       rw [hb] at hy'; simp only [Option.map_some, Option.some.injEq] at hy'; subst hy'
       refine ⟨y, rfl, ?_, ?_, ?_, ?_⟩ <;> by_cases hcb : c = b <;> simp [hcb]
-
-theorem good_killSubtree {s : S} (h : Good s) (fuel : Nat) (l : List Nat) : Good (killSubtree fuel s l) := by
-  induction fuel generalizing s l with
-  | zero => simpa [killSubtree] using h
-  | succ n ih =>
-    cases l with
-    | nil => simpa [killSubtree] using h
-    | cons c rest => simp only [killSubtree]; exact ih (good_release h c) _
-
-theorem frame_killSubtree (s : S) (fuel : Nat) (l : List Nat) : Frame s (killSubtree fuel s l) := by
-  induction fuel generalizing s l with
-  | zero => simpa [killSubtree] using Frame.refl s
-  | succ n ih =>
-    cases l with
-    | nil => simpa [killSubtree] using Frame.refl s
-    | cons c rest => simp only [killSubtree]; exact (frame_release s c).trans (ih _ _)
 
 /-- marking a clean, unreferenced actor as a failed start keeps `Good` -/
 theorem good_markFailed {s : S} (h : Good s) (a : Nat) (x : Actor) (hx : s.actors[a]? = some x)
@@ -247,13 +233,12 @@ theorem not_ref_of_starting {A : List Actor} {a : Nat} {x : Actor} (hx : A[a]? =
   rintro ⟨y, hy, h1, _⟩
   rw [hx] at hy; cases hy; exact h1 hs
 
-theorem good_failStart {s : S} (h : Good s) (a : Nat) (hst : isStarting s a = true) : Good (failStart s a) := by
+/-- the guard cleanup of an actor that was still starting in `s`, performed in a later state
+`s1` reached by steps that only release other actors -/
+theorem good_fail_after {s : S} (h : Good s) (a : Nat) (hst : isStarting s a = true) (s1 : S)
+    (hg1 : Good s1) (hf1 : Frame s s1) :
+    Good (setActor (release s1 a) a (fun x => { x with failedStart := true })) := by
   obtain ⟨x, hx, hxs⟩ := isStarting_iff.mp hst
-  unfold failStart
-  simp only
-  generalize hs1 : killSubtree s.actors.length s (childrenOf s a) = s1
-  have hg1 : Good s1 := hs1 ▸ good_killSubtree h _ _
-  have hf1 : Frame s s1 := hs1 ▸ frame_killSubtree s _ _
   have hg2 : Good (release s1 a) := good_release hg1 a
   have hf2 : Frame s (release s1 a) := hf1.trans (frame_release s1 a)
   -- nobody refers to `a`: it was still starting in `s`
@@ -268,7 +253,7 @@ theorem good_failStart {s : S} (h : Good s) (a : Nat) (hst : isStarting s a = tr
     rw [List.getElem?_eq_none_iff] at hx2
     omega
   | some x2 =>
-    obtain ⟨y, hy, hh, hfl, hpe, _⟩ := hf2.actors a x2 hx2
+    obtain ⟨y, hy, hh, _, hpe, _⟩ := hf2.actors a x2 hx2
     rw [hx] at hy; cases hy
     have hfresh := h.fresh a x hx hxs
     -- x2 is clean: release set every field, `handled` is untouched and was 0
@@ -291,6 +276,55 @@ theorem good_failStart {s : S} (h : Good s) (a : Nat) (hst : isStarting s a = tr
     · intro b y' hy' ce hce heq
       obtain ⟨y0, hy0, _, _, hsub, _⟩ := hf2.actors b y' hy'
       exact hnoref (heq ▸ h.pend b y0 hy0 ce (hsub ce hce))
+
+theorem frame_killChild (s : S) (c : Nat) : Frame s (killChild s c) := by
+  unfold killChild
+  split
+  · rename_i hst
+    obtain ⟨x, hx, hxs⟩ := isStarting_iff.mp hst
+    have hf := frame_release s c
+    refine ⟨hf.events, by simpa [setActor] using hf.len, ?_⟩
+    intro b y' hy'
+    rw [getElem?_setActor] at hy'
+    cases hb : (release s c).actors[b]? with
+    | none => rw [hb] at hy'; cases hy'
+    | some z =>
+      rw [hb] at hy'; simp only [Option.map_some, Option.some.injEq] at hy'; subst hy'
+      obtain ⟨y, hy, h1, h2, h3, h4⟩ := hf.actors b z hb
+      by_cases hcb : c = b
+      · subst hcb
+        rw [hx] at hy; cases hy
+        exact ⟨x, hx, by simpa using h1, fun hns => absurd hxs hns, by simpa using h3, by simpa using h4⟩
+      · exact ⟨y, hy, by simpa [hcb] using h1, fun hns => by simpa [hcb] using h2 hns,
+          by simpa [hcb] using h3, by simpa [hcb] using h4⟩
+  · exact frame_release s c
+
+theorem good_killChild {s : S} (h : Good s) (c : Nat) : Good (killChild s c) := by
+  unfold killChild
+  split
+  · rename_i hst; exact good_fail_after h c hst s h (Frame.refl s)
+  · exact good_release h c
+
+theorem good_killSubtree {s : S} (h : Good s) (fuel : Nat) (l : List Nat) : Good (killSubtree fuel s l) := by
+  induction fuel generalizing s l with
+  | zero => simpa [killSubtree] using h
+  | succ n ih =>
+    cases l with
+    | nil => simpa [killSubtree] using h
+    | cons c rest => simp only [killSubtree]; exact ih (good_killChild h c) _
+
+theorem frame_killSubtree (s : S) (fuel : Nat) (l : List Nat) : Frame s (killSubtree fuel s l) := by
+  induction fuel generalizing s l with
+  | zero => simpa [killSubtree] using Frame.refl s
+  | succ n ih =>
+    cases l with
+    | nil => simpa [killSubtree] using Frame.refl s
+    | cons c rest => simp only [killSubtree]; exact (frame_killChild s c).trans (ih _ _)
+
+theorem good_failStart {s : S} (h : Good s) (a : Nat) (hst : isStarting s a = true) : Good (failStart s a) := by
+  unfold failStart
+  simp only
+  exact good_fail_after h a hst _ (good_killSubtree h _ _) (frame_killSubtree s _ _)
 
 end Spawn
 
@@ -372,7 +406,7 @@ theorem good_exitRunning {s : S} (h : Good s) (a : Nat) (e : Ev)
     obtain ⟨x1, hx1⟩ : ∃ x1, s1.actors[a]? = some x1 := ⟨s1.actors[a], List.getElem?_eq_getElem hlt⟩
     obtain ⟨y, hy, _, hfl, _, hph⟩ := hf1.actors a x1 hx1
     rw [hx] at hy; cases hy
-    refine ⟨x1, hx1, fun hs => ?_, hfl.trans hfail⟩
+    refine ⟨x1, hx1, fun hs => ?_, (hfl (by rw [hxr]; simp)).trans hfail⟩
     have := hph hs; rw [hxr] at this; cases this
   apply good_release
   split
@@ -453,6 +487,30 @@ theorem good_step {s : S} (h : Good s) (op : Op) : Good (step s op) := by
         rcases hnv with h1 | h1
         · exact Or.inl h1
         · subst h1; exact Or.inr ⟨rfl, by simp⟩
+  | beginTL name sup =>
+    simp only [step]
+    generalize clashes s name = clash
+    generalize refusedBy s sup = refused
+    have htomb : ∀ (nm sp : Option Nat), Good { s with actors := s.actors ++
+        [(⟨nm, sp, false, .stopped, true, [], [], [], 0, 0, false, []⟩ : Actor)] } := fun nm sp =>
+      good_append h _ s.names (fun _ => ⟨rfl, rfl, rfl, rfl, rfl, rfl, rfl, rfl⟩) rfl
+        (fun hs => by simp at hs) (fun nv hnv => Or.inl hnv)
+    cases clash with
+    | true => simpa using htomb none none
+    | false =>
+      cases refused with
+      | true => simpa using htomb name sup
+      | false =>
+        simp only [Bool.false_eq_true, if_false]
+        refine good_append h _ _ (fun hf => by cases hf) rfl (fun _ => ⟨rfl, rfl⟩) ?_
+        intro nv hnv
+        cases name with
+        | none => exact Or.inl hnv
+        | some n =>
+          simp only [List.mem_append, List.mem_singleton] at hnv
+          rcases hnv with h1 | h1
+          · exact Or.inl h1
+          · subst h1; exact Or.inr ⟨rfl, by simp⟩
   | join a g =>
     simp only [step]; split
     · rename_i hst
